@@ -21,6 +21,7 @@ package main
 //                      error was tested reaches NewConn
 
 import (
+	"go/token"
 	"fmt"
 	"go/constant"
 	"go/types"
@@ -145,6 +146,17 @@ func c19Callback(p *Prog, r *Report, cb *ssa.Function, rootF *types.Var) {
 		return
 	}
 	rawCerts := cb.Params[0]
+	for _, par := range cb.Params {
+		// the presented chain: the [][]byte parameter (a method value has its receiver first)
+		if sl, ok := par.Type().Underlying().(*types.Slice); ok {
+			if in, ok := sl.Elem().Underlying().(*types.Slice); ok {
+				if b, ok := in.Elem().Underlying().(*types.Basic); ok && b.Kind() == types.Uint8 {
+					rawCerts = par
+					break
+				}
+			}
+		}
+	}
 	// the callback may be a thin wrapper around a named function that is given the presented chain
 	hasVerify := func(f *ssa.Function) bool {
 		return callsDirectly(f, func(c ssa.CallInstruction) bool {
@@ -220,6 +232,26 @@ func c19Callback(p *Prog, r *Report, cb *ssa.Function, rootF *types.Var) {
 					continue
 				}
 			}
+			// the error of a repository helper (parsing moved out of the callback), returned where it was found non-nil
+			if ex, ok := o.(*ssa.Extract); ok {
+				if c, ok := ex.Tuple.(*ssa.Call); ok && c.Call.StaticCallee() != nil && p.InRepo(c.Call.StaticCallee()) {
+					nonNil := false
+					for _, ct := range dominatingConds(ret.Block()) {
+						if bo, ok := ct.Cond.(*ssa.BinOp); ok && ((bo.Op == token.NEQ && ct.Truth) || (bo.Op == token.EQL && !ct.Truth)) {
+							if k, isNil := bo.Y.(*ssa.Const); isNil && k.Value == nil {
+								for _, oo := range origins(bo.X) {
+									if oo == o {
+										nonNil = true
+									}
+								}
+							}
+						}
+					}
+					if nonNil {
+						continue
+					}
+				}
+			}
 			bad = append(bad, p.Pos(ret.Pos())+": the callback can accept the chain without the result of Verify ("+o.String()+")")
 		}
 	})
@@ -237,6 +269,36 @@ func c19Callback(p *Prog, r *Report, cb *ssa.Function, rootF *types.Var) {
 	if !leafOK {
 		bad = append(bad, p.Pos(verify.Pos())+": Verify is not called on the leaf (first) certificate of the presented chain")
 	}
+	// the parsing may live in a helper that is handed the presented chain and returns the parsed one
+	parseFn := cb
+	if certs != nil {
+		for _, o := range origins(certs) {
+			ex, ok := o.(*ssa.Extract)
+			if !ok || ex.Index != 0 {
+				continue
+			}
+			hc, ok := ex.Tuple.(*ssa.Call)
+			if !ok || hc.Call.StaticCallee() == nil || !p.InRepo(hc.Call.StaticCallee()) {
+				continue
+			}
+			h := hc.Call.StaticCallee()
+			for i, a := range hc.Call.Args {
+				if a == ssa.Value(rawCerts) && i < len(h.Params) {
+					// inside the helper: the slice it returns, and its own parameter
+					eachInstr(h, func(in ssa.Instruction) {
+						if ret, ok := in.(*ssa.Return); ok && len(ret.Results) > 0 {
+							for _, ro := range origins(ret.Results[0]) {
+								if _, isMk := ro.(*ssa.MakeSlice); isMk {
+									certs, rawCerts, parseFn = ro, h.Params[i], h
+								}
+							}
+						}
+					})
+				}
+			}
+		}
+	}
+	_ = parseFn
 	if certs != nil {
 		// elements of certs come from ParseCertificate(rawCerts[i]) with i the same index
 		okParse := false
@@ -456,11 +518,23 @@ func c19Bundle(p *Prog, r *Report) {
 	r.Rule(rule, "the bundle's tls.Config carries RootCAs including the bundle CA (append checked), the bundle's client key pair (error checked) and ServerName = bundle host, never InsecureSkipVerify; Bundle.TLSConfig is only Clone()d")
 	fn := p.Func("astra", "LoadBundleZip")
 	var bad []string
-	lits := structLits(fn, func(t types.Type) bool { return types.TypeString(t, nil) == "crypto/tls.Config" })
+	// LoadBundleZip and the private helpers it was split into
+	var lits []map[string]ssa.Value
+	litFn := map[int]*ssa.Function{}
+	for _, f := range withCallees(p, fn, 2) {
+		if f != fn && !(f.Parent() == nil && f.Pkg == fn.Pkg && onlyCalledFrom(p, f, fn, 3)) {
+			continue
+		}
+		for _, l := range structLits(f, func(t types.Type) bool { return types.TypeString(t, nil) == "crypto/tls.Config" }) {
+			litFn[len(lits)] = f
+			lits = append(lits, l)
+		}
+	}
 	if len(lits) != 1 {
 		bad = append(bad, fmt.Sprintf("%d tls.Config literals in LoadBundleZip", len(lits)))
 	}
-	for _, lit := range lits {
+	for li, lit := range lits {
+		fn := litFn[li]
 		if _, ok := lit["InsecureSkipVerify"]; ok {
 			bad = append(bad, "the bundle config disables verification")
 		}
@@ -514,7 +588,13 @@ func c19Bundle(p *Prog, r *Report) {
 		if !okCert {
 			bad = append(bad, "client certificate is not the bundle's key pair")
 		}
-		if !strings.HasSuffix(fieldPath(lit["ServerName"]), "Host") {
+		okHost := false
+		for _, o := range originsInter(p, lit["ServerName"], 2) {
+			if strings.HasSuffix(fieldPath(o), "Host") {
+				okHost = true
+			}
+		}
+		if !okHost {
 			bad = append(bad, "ServerName is not the bundle host")
 		}
 	}
